@@ -68,4 +68,19 @@ pub proof fn lemma_args_printable(t: Type, n: int, k: int)
 {
     if k < n - 1 { lemma_args_printable(t, n - 1, k); }
 }
+/// what `resolve_grammar_type` returns never contains an unresolved type: the types that the semantic layer stores in
+/// regions, arguments, return types, enum bases and (after the build) extern values satisfy the printer's precondition
+pub proof fn lemma_resolved_printable(reg: &crate::semantic::TypeRegistry, scope: Seq<ItemPath>, t: grammar::Type)
+    requires spec_resolve_type(reg, scope, t) is Some,
+    ensures printable(spec_resolve_type(reg, scope, t)->0),
+    decreases t
+{
+    match t {
+        grammar::Type::ConstPointer(inner) => { lemma_resolved_printable(reg, scope, *inner); }
+        grammar::Type::MutPointer(inner) => { lemma_resolved_printable(reg, scope, *inner); }
+        grammar::Type::Array(inner, n) => { lemma_resolved_printable(reg, scope, *inner); }
+        grammar::Type::Ident(id) => { }
+        grammar::Type::Unknown(n) => { reveal_with_fuel(printable, 3); }
+    }
+}
 }
